@@ -85,7 +85,9 @@ def main(tier, replay):
         "(6 float roundings, the one of prior_gradient/num_subsets amplified <= 110x inside the clamp range [s/10,10s]); both branches accepted "
         "where a comparison with the float threshold of stir::divide is within 2^-20. distinct = distinct op lines. Oracle on the implementation: "
         "textbook EM formula from the explicit system matrix, non-negativity, count preservation, monotone log-likelihood, MAP denominator bounds, "
-        "stepwise = uninterrupted run (bitwise), restart at every k from the saved Interfile image (bitwise), enforce_initial_positivity both ways.",
+        "stepwise = uninterrupted run (bitwise), restart at every k from the saved Interfile image (bitwise), enforce_initial_positivity both ways "
+        "(known finding restart:enforce-initial-positivity-lifts-exact-zeros: option on + exact zeros in the saved image; there the same restart point "
+        "with the option off must be bitwise equal and the deviating run must be bitwise the run from the lifted image).",
         extra=dict(input_distribution=cov))
     chk.assumptions += ["float rounding, overflow/underflow and signed zeros are not modelled (exact Rat + derived tolerance)",
                         "subset gradient-plus-sensitivity, subset sensitivities, prior gradient and user filters are data for the model (C05/C09)",
